@@ -58,8 +58,10 @@ def prune_builds(prefix, keep=2):
     except FileNotFoundError:
         return
     ds.sort(key=lambda d: os.path.getmtime(os.path.join(BUILD, d)), reverse=True)
-    for d in ds[keep:]:
-        shutil.rmtree(os.path.join(BUILD, d), ignore_errors=True)
+    now = time.time()
+    for d in ds[max(keep, 3):]:
+        if now - os.path.getmtime(os.path.join(BUILD, d)) > 3600:       # never remove a build another run may be using
+            shutil.rmtree(os.path.join(BUILD, d), ignore_errors=True)
 
 def compile_many(jobs, jn=NCPU):
     """jobs: list of (cmd list, cwd).  Returns list of (rc, output)."""
